@@ -145,6 +145,14 @@ func prepareQuery(ctx context.Context, typ Type, selectionSet *SelectionSet, pre
 		}
 
 		for _, fragment := range selectionSet.Fragments {
+			if fragment.On == typ.Name {
+				// A fragment on the union type itself: what it selects is
+				// selected on the union.
+				if err := prepareQuery(ctx, typ, fragment.SelectionSet, prepared); err != nil {
+					return err
+				}
+				continue
+			}
 			for typString, graphqlTyp := range typ.Types {
 				if fragment.On != typString {
 					continue
